@@ -68,7 +68,7 @@ def parseResI (a : Act) (r : String) : Res :=
   | .deq, "none" => .none_
   | .deq, x => match nat? x with | some i => .got i | none => .err
   | _, "start" => .start | _, "wait" => .wait | _, "rej" => .rej | _, "pass" => .pass | _, "acc" => .acc
-  | _, "renege" => .renege | _, "idle" => .idle | _, "-" => .dash
+  | _, "renege" => .renege | _, "idle" => .idle | _, "-" => .dash | _, "lost" => .none_
   | _, _ => .err
 
 def runIndus (hdr body : List String) : List String :=
